@@ -3,6 +3,7 @@ package protocol
 import (
 	"encoding/hex"
 	"encoding/json"
+	"errors"
 	"math/big"
 
 	"github.com/google/uuid"
@@ -233,6 +234,9 @@ func (q *Quality) SetMsg(msg *MsgQuality) error {
 }
 
 func NewQuality(msg *MsgQuality) (*Quality, error) {
+	if msg == nil {
+		return nil, errors.New("nil quality message")
+	}
 	q := new(Quality)
 	if err := q.SetMsg(msg); err != nil {
 		return nil, err
@@ -440,6 +444,9 @@ func (p *Proof) SetMsg(msg *MsgProof) error {
 }
 
 func NewProof(msg *MsgProof) (*Proof, error) {
+	if msg == nil {
+		return nil, errors.New("nil proof message")
+	}
 	p := new(Proof)
 	if err := p.SetMsg(msg); err != nil {
 		return nil, err
